@@ -224,3 +224,42 @@ func IsRepoFn(fn *ssa.Function) bool {
 	}
 	return false
 }
+
+// toggleRecv turns "(pkg.T).M" into "(*pkg.T).M" and back.
+func toggleRecv(key string) string {
+	if strings.HasPrefix(key, "(*") {
+		return "(" + key[2:]
+	}
+	if strings.HasPrefix(key, "(") {
+		return "(*" + key[1:]
+	}
+	return ""
+}
+
+// ContractFor finds the contract of fn; a contract written for the value-receiver form of a method also
+// applies when the method now has a pointer receiver (and the contract's receiver is then the pointee).
+func (e *Engine) ContractFor(fn *ssa.Function) (*Contract, bool) {
+	k := FnKey(fn)
+	if ct := e.Contracts.ByKey[k]; ct != nil {
+		return ct, false
+	}
+	if t := toggleRecv(k); t != "" && strings.HasPrefix(k, "(*") {
+		if ct := e.Contracts.ByKey[t]; ct != nil && ct.Kind == "func" {
+			return ct, true
+		}
+	}
+	return nil, false
+}
+
+// FunctionFor finds the function a contract key denotes (tolerating a value receiver turned pointer receiver).
+func (e *Engine) FunctionFor(key string) (*ssa.Function, bool) {
+	if fn := e.FnByKey[key]; fn != nil {
+		return fn, false
+	}
+	if t := toggleRecv(key); t != "" && !strings.HasPrefix(key, "(*") {
+		if fn := e.FnByKey[t]; fn != nil {
+			return fn, true
+		}
+	}
+	return nil, false
+}
